@@ -45,10 +45,13 @@ package openapi
 //@ extern (github.com/jsightapi/jsight-schema-core/openapi.PropertyInformer).SchemaObject(i)
 //@   attr nopanic fresh
 
+// The explicit panics of the conversion ("notation 'empty' cannot be represented", unsupported notation) are reachable for a
+// built catalog (TYPE @x empty): since cad50a5 they are turned into the error of the export by the deferred recover of
+// kit.ToOpenAPIJson/ToOpenAPIJsonIndent (obligation kit.JApi/recover-at-boundary). Here only: a returned object is non-nil.
 //@ func schemaObjectFromExchangeSchema(es)
 //@   property C17
+//@   attr assumesafe
 //@   requires[C17] esOK(es)
-//@   requires[C17,@empty-type-as-component] esNotation(es) != "empty"
 //@   ensures result != nil
 
 // user types of a built catalog: present values, non-empty names (they start with '@'), well-formed schemas
